@@ -195,6 +195,24 @@ func (e *Engine) scanGlobals() {
 					e.errGlobal[g] = true
 				}
 			}
+			// error-like sentinels built by a constructor: var ErrX = NewFooErr(...) of type *FooErr / *FooError
+			if pt, ok := g.Type().(*types.Pointer).Elem().Underlying().(*types.Pointer); ok {
+				if nt, ok := pt.Elem().(*types.Named); ok {
+					n := nt.Obj().Name()
+					if strings.HasSuffix(n, "Err") || strings.HasSuffix(n, "Error") {
+						e.errGlobal[g] = true
+					}
+				}
+			}
+		case *ssa.Alloc:
+			if pt, ok := g.Type().(*types.Pointer).Elem().Underlying().(*types.Pointer); ok {
+				if nt, ok := pt.Elem().(*types.Named); ok {
+					n := nt.Obj().Name()
+					if strings.HasSuffix(n, "Err") || strings.HasSuffix(n, "Error") {
+						e.errGlobal[g] = true
+					}
+				}
+			}
 		case *ssa.Convert:
 			if c, ok := x.X.(*ssa.Const); ok && c.Value != nil && c.Value.Kind() == constant.String {
 				if sl, ok := x.Type().Underlying().(*types.Slice); ok && types.Identical(sl.Elem().Underlying(), types.Typ[types.Uint8]) {
